@@ -16,6 +16,7 @@ import (
 	"github.com/B1NARY-GR0UP/originium/wal"
 
 	"verifharness/internal/core"
+	"verifharness/internal/eng"
 )
 
 // C11: on-disk encodings round-trip exactly and stay intact after the encoder returns.
@@ -543,6 +544,47 @@ func c11Stability(c core.Case, res *core.Result) {
 				res.Violate("C11", "C11/wal-shared/batch-lost", "shared wal holds %d batches, %d were written", n, len(sharedBatches))
 			}
 			res.AddObs("shared_wal_batches", int64(n))
+			// several goroutines read the same handle at once: each has to get the whole sequence
+			if res.Verdict == "" && G > 1 {
+				var rwg sync.WaitGroup
+				var rmu sync.Mutex
+				bad := ""
+				for g := 0; g < min(G, 6); g++ {
+					rwg.Add(1)
+					go func(g int) {
+						defer rwg.Done()
+						for k := 0; k < 3; k++ {
+							var again []types.Entry
+							var rerr error
+							p := eng.Safely(func() { again, rerr = shared.Read() })
+							msg := ""
+							switch {
+							case p != "":
+								msg = "panic: " + p
+							case rerr != nil:
+								msg = "error: " + rerr.Error()
+							case len(again) != len(got):
+								msg = fmt.Sprintf("%d records, the wal holds %d", len(again), len(got))
+							default:
+								msg = c11SameList(again, got)
+							}
+							if msg != "" {
+								rmu.Lock()
+								if bad == "" {
+									bad = fmt.Sprintf("reader %d, read %d: %s", g, k, msg)
+								}
+								rmu.Unlock()
+								return
+							}
+						}
+					}(g)
+				}
+				rwg.Wait()
+				if bad != "" {
+					res.Violate("C11", "C11/wal-shared/concurrent-read", "concurrent Read calls on one wal handle do not all return the written sequence: %s", bad)
+				}
+				res.AddObs("shared_wal_concurrent_reads", int64(3*min(G, 6)))
+			}
 		}
 		shared.Delete()
 	}
@@ -680,7 +722,7 @@ func genC11(tier string, seed int64) []core.Case {
 func init() {
 	core.Register(&core.Check{
 		Prop: "C11", Level: "exploration",
-		Rule: "roundtrip cases: 10 rounds each of decode(encode(x)) == x for Data, Index, Footer, Meta, table.Build read back through footer->index->data region and block by block->meta, and WAL write/read/reopen/append sequences, over generated entries (binary and empty keys/values, shared prefixes, lengths 0/1/255/256/65535/65536/70000 in every tenth case, versions 0/1/2^63-1 and negative ones (-1, -2^63, -2^32), tombstones, block sizes 1..1MiB), plus 'huge' cases with one 16-20 MiB value in a wal sequence, a data block and a table; stability cases: 1-16 goroutines encode and log concurrently, every returned slice is cloned at return and compared with its clone after further encodings (value check) while they also append batches to one shared wal whose read-back must hold every batch whole, contiguous and in order, and the same workload with smaller counts under the race detector (a reused pool buffer is reported as a race); non-trivial = a round with a length field >= 256 or a shared prefix > 0 / encodings that overlapped in time; distinct by seed",
+		Rule: "roundtrip cases: 10 rounds each of decode(encode(x)) == x for Data, Index, Footer, Meta, table.Build read back through footer->index->data region and block by block->meta, and WAL write/read/reopen/append sequences, over generated entries (binary and empty keys/values, shared prefixes, lengths 0/1/255/256/65535/65536/70000 in every tenth case, versions 0/1/2^63-1 and negative ones (-1, -2^63, -2^32), tombstones, block sizes 1..1MiB), plus 'huge' cases with one 16-20 MiB value in a wal sequence, a data block and a table; stability cases: 1-16 goroutines encode and log concurrently, every returned slice is cloned at return and compared with its clone after further encodings (value check) while they also append batches to one shared wal whose read-back must hold every batch whole, contiguous and in order (read once, then by up to 6 goroutines at the same time), and the same workload with smaller counts under the race detector (a reused pool buffer is reported as a race); non-trivial = a round with a length field >= 256 or a shared prefix > 0 / encodings that overlapped in time; distinct by seed",
 		Gen:  genC11, Run: runC11, BatchSize: 4, GoMaxProcs: 4, Parallel: 6,
 		RaceKinds:     map[string]bool{"stability-race": true},
 		MinNonTrivial: map[string]int{"quick": 100, "thorough": 4000},
